@@ -75,8 +75,8 @@ SPECS["C09"] = {
 # ---------------------------------------------------------------------------------------------- C10
 def plan_c10(tier, seed):
     if tier == "quick":
-        return checks("main", 8, 40000)
-    runs = checks("main", 10, 500000) + checks("nohook", 2, 300000)
+        return checks("main", 8, 40000) + shards("plain", "sparse-12", 8)
+    runs = checks("main", 10, 500000) + checks("nohook", 2, 300000) + shards("plain", "sparse-17", 16, timeout=7000)
     # every float bit pattern at three (precision, format) pairs, plain -O2 build, 16 shards each
     for what in ("floats-9-0", "floats-6-1", "floats-2-2"):
         runs += shards("plain", what, 16, timeout=7000)
@@ -91,8 +91,10 @@ SPECS["C10"] = {
     },
     "default_build": "main",
     "plan": plan_c10,
-    "exhaustive_enums": ["floats-9-0", "floats-6-1", "floats-2-2"],
-    "rule": ("case = (value, precision 0..40, format Default/Fixed/SemiFixed, unit width, stream prefix); values: doubles from 14 classes (uniform bits, "
+    "exhaustive_enums": ["floats-9-0", "floats-6-1", "floats-2-2", "sparse-12", "sparse-17"],
+    "rule": ("enumerated: every double with an odd significand part of at most 11 bits (quick) / 17 bits (thorough) in the binades below 1e-200 and above 1e200 at "
+             "every precision 0..40 in the Default format (30 M / 1.9 G conversions); generated: "
+             "case = (value, precision 0..40, format Default/Fixed/SemiFixed, unit width, stream prefix); values: doubles from 14 classes (uniform bits, "
              "modest binades, short decimals m*10^e, everyday decimals, exact binary ties, integers, power-of-ten / power-of-two neighbourhoods, "
              "subnormals, sparse mantissas, specials, nine-runs), floats (uniform, short decimals, ties, specials), integers of 8/16/32/64 bits "
              "incl. minima; thorough adds every one of the 2^32 floats at 3 (precision, format) pairs; non-trivial = finite non-integer value, or "
